@@ -27,6 +27,11 @@ pub enum WV {
     /// a typed page (PagesNode::Leaf) with a one-part content stream and a direct resources
     /// dictionary: writing it makes the library create further objects from inside to_primitive
     Page { content: Vec<u8> },
+    /// a stream of the base file copied the typed way: its stored bytes and its filter list go into
+    /// `Stream::from_compressed`, which is written; it must decode to what the source decodes to
+    CopyStream(u64),
+    /// (expectation only) a stream that decodes to these bytes
+    Decoded(Vec<u8>),
 }
 #[derive(Clone, Debug, PartialEq)]
 pub enum Target {
@@ -56,6 +61,8 @@ fn wv_json(w: &WV) -> J {
         WV::Stream { dict, data } => json!({"stream": {"dict": docgen::dict_to_json(dict), "data": docgen::hex(data)}}),
         WV::InFile(id) => json!({"infile": id}),
         WV::Page { content } => json!({"page": docgen::hex(content)}),
+        WV::CopyStream(id) => json!({"copy_stream": id}),
+        WV::Decoded(d) => json!({"decoded": docgen::hex(d)}),
     }
 }
 fn wv_from(j: &J) -> Option<WV> {
@@ -67,6 +74,12 @@ fn wv_from(j: &J) -> Option<WV> {
     }
     if let Some(p) = j.get("page") {
         return Some(WV::Page { content: docgen::unhex(p.as_str()?)? });
+    }
+    if let Some(c) = j.get("copy_stream") {
+        return Some(WV::CopyStream(c.as_u64()?));
+    }
+    if let Some(d) = j.get("decoded") {
+        return Some(WV::Decoded(docgen::unhex(d.as_str()?)?));
     }
     Some(WV::InFile(j.get("infile")?.as_u64()?))
 }
@@ -167,11 +180,12 @@ pub struct Outcome {
     pub writes: u64,
     pub second_saves: u64,
     pub refused_updates: u64,
+    pub typed_copies: u64,
 }
 
 fn to_primitive(file: &SimFile, w: &WV) -> Result<Primitive, String> {
     match w {
-        WV::Page { .. } => Err("typed value".into()),
+        WV::Page { .. } | WV::CopyStream(_) | WV::Decoded(_) => Err("typed value".into()),
         WV::Val(v) => Ok(val_to_prim(v)),
         WV::Stream { dict, data } => Stream::new(dict_to_prim(dict), data.clone()).to_primitive(&mut NoUpdate).map_err(|e| error_kind(&e)),
         WV::InFile(id) => match file.resolver().resolve(PlainRef { id: *id, gen: 0 }) {
@@ -242,8 +256,16 @@ fn matches(res: &impl Resolve, at: PlainRef, got: &Primitive, w: &WV) -> Result<
             }
             p => Err(format!("wrote a stream, read {}", short(p))),
         },
-        WV::InFile(_) => match got {
+        WV::InFile(_) | WV::CopyStream(_) => match got {
             Primitive::Stream(_) => Ok(()),
+            p => Err(format!("wrote a stream, read {}", short(p))),
+        },
+        WV::Decoded(want) => match got {
+            Primitive::Stream(s) => match Stream::<()>::from_stream(s.clone(), res).and_then(|t| t.data(res)) {
+                Ok(d) if &d[..] == &want[..] => Ok(()),
+                Ok(d) => Err(format!("copied stream: the source decodes to {} bytes, the copy (filters {:?}, parameters {:?}) to {} bytes", want.len(), s.info.get("Filter").map(short), s.info.get("DecodeParms").map(short), d.len())),
+                Err(e) => Err(format!("copied stream: the copy (filters {:?}, parameters {:?}) does not decode: {}", s.info.get("Filter").map(short), s.info.get("DecodeParms").map(short), error_kind(&e))),
+            },
             p => Err(format!("wrote a stream, read {}", short(p))),
         },
     }
@@ -370,6 +392,34 @@ impl<'a> Exec<'a> {
                 None => self.file.create(node).map(|h| (None, h.get_ref().get_inner())),
             };
             return self.record_write(result, w);
+        }
+        if let WV::CopyStream(src) = w {
+            if promise.is_some() {
+                return Ok(());
+            }
+            let made = {
+                let res = self.file.resolver();
+                let r = PlainRef { id: *src, gen: 0 };
+                (|| -> Option<(Stream<()>, Vec<u8>)> {
+                    let raw = match res.resolve(r).ok()? {
+                        Primitive::Stream(p) => p.raw_data(&res).ok()?,
+                        _ => return None,
+                    };
+                    let typed = res.get::<Stream<()>>(Ref::new(r)).ok()?;
+                    let decoded = (*typed).data(&res).ok()?;
+                    Some((Stream::from_compressed((), raw, typed.info.filters.clone()), decoded.to_vec()))
+                })()
+            };
+            let (copy, decoded) = match made {
+                Some(x) => x,
+                None => return Ok(()), // the source is not a readable stream (any more): not a write
+            };
+            self.out.typed_copies += 1;
+            let result = match target {
+                Some(t) => self.file.update(t, copy).map(|h| (Some(t), h.get_ref().get_inner())),
+                None => self.file.create(copy).map(|h| (None, h.get_ref().get_inner())),
+            };
+            return self.record_write(result, &WV::Decoded(decoded));
         }
         let prim = match to_primitive(&self.file, w) {
             Ok(p) => p,
@@ -554,7 +604,7 @@ impl<'a> Exec<'a> {
             Op9::Create(w) => self.write(None, w, None),
             Op9::Update(Target::Missing(n), w) => {
                 // still missing? (an earlier accepted update may have defined it)
-                if self.expect.contains_key(n) || matches!(w, WV::InFile(_) | WV::Page { .. }) {
+                if self.expect.contains_key(n) || matches!(w, WV::InFile(_) | WV::Page { .. } | WV::CopyStream(_)) {
                     return Ok(());
                 }
                 let prim = match to_primitive(&self.file, w) {
@@ -589,7 +639,7 @@ impl<'a> Exec<'a> {
                 Ok(())
             }
             Op9::Fulfil(k, w) => {
-                if self.promises.is_empty() || matches!(w, WV::InFile(_) | WV::Page { .. }) {
+                if self.promises.is_empty() || matches!(w, WV::InFile(_) | WV::Page { .. } | WV::CopyStream(_)) {
                     return Ok(());
                 }
                 let idx = k % self.promises.len();
@@ -608,7 +658,7 @@ impl<'a> Exec<'a> {
 }
 
 pub fn run_case(case: &Case, scratch: &str) -> Outcome {
-    let mut out = Outcome { violation: None, trace: 0, saves_ok: 0, saves_failed_expected: 0, env_faults: 0, reloads: 0, reads: 0, writes: 0, second_saves: 0, refused_updates: 0 };
+    let mut out = Outcome { violation: None, trace: 0, saves_ok: 0, saves_failed_expected: 0, env_faults: 0, reloads: 0, reads: 0, writes: 0, second_saves: 0, refused_updates: 0, typed_copies: 0 };
     clear_last_panic();
     let file = match open_base(&case.base, case.cached) {
         Ok(f) => f,
@@ -642,7 +692,7 @@ pub fn run_case(case: &Case, scratch: &str) -> Outcome {
         }
         base_pages = (fresh.num_pages(), fresh.num_pages() > 0 && fresh.get_page(0).is_ok());
     }
-    std::mem::swap(&mut out, &mut Outcome { violation: None, trace: 0, saves_ok: 0, saves_failed_expected: 0, env_faults: 0, reloads: 0, reads: 0, writes: 0, second_saves: 0, refused_updates: 0 });
+    std::mem::swap(&mut out, &mut Outcome { violation: None, trace: 0, saves_ok: 0, saves_failed_expected: 0, env_faults: 0, reloads: 0, reads: 0, writes: 0, second_saves: 0, refused_updates: 0, typed_copies: 0 });
     let mut ex = Exec {
         case,
         scratch: scratch.to_string(),
@@ -852,6 +902,12 @@ impl C09 {
             }
         }
         if rng.chance(1, 10) {
+            let streams: Vec<u64> = base.inv.objects.iter().filter(|(_, k)| matches!(k, ObjKind::Stream | ObjKind::Image | ObjKind::Form)).map(|x| x.0).collect();
+            if !streams.is_empty() {
+                return WV::CopyStream(*rng.pick(&streams));
+            }
+        }
+        if rng.chance(1, 10) {
             return WV::Page { content: format!("q 1 0 0 1 {} {} cm 0 0 10 10 re f Q", rng.below(100), rng.below(100)).into_bytes() };
         }
         if rng.chance(1, 5) {
@@ -985,8 +1041,8 @@ impl C09 {
                         break;
                     }
                     let simpler = match &best.ops[k] {
-                        Op9::Create(w) if *w != WV::Val(Val::Int(1)) && !matches!(w, WV::InFile(_) | WV::Page { .. }) => Some(Op9::Create(WV::Val(Val::Int(1)))),
-                        Op9::Update(t, w) if *w != WV::Val(Val::Int(1)) && !matches!(w, WV::InFile(_) | WV::Page { .. }) => Some(Op9::Update(t.clone(), WV::Val(Val::Int(1)))),
+                        Op9::Create(w) if *w != WV::Val(Val::Int(1)) && !matches!(w, WV::InFile(_) | WV::Page { .. } | WV::CopyStream(_)) => Some(Op9::Create(WV::Val(Val::Int(1)))),
+                        Op9::Update(t, w) if *w != WV::Val(Val::Int(1)) && !matches!(w, WV::InFile(_) | WV::Page { .. } | WV::CopyStream(_)) => Some(Op9::Update(t.clone(), WV::Val(Val::Int(1)))),
                         _ => None,
                     };
                     if let Some(s_op) = simpler {
@@ -1057,6 +1113,7 @@ impl Check for C09 {
         rep.count("writes", out.writes);
         rep.count("second_saves", out.second_saves);
         rep.count("updates_of_missing_numbers_refused", out.refused_updates);
+        rep.count("typed_stream_copies", out.typed_copies);
         rep.count(if i % 2 == 1 { "fault_batch_runs" } else { "fault_free_batch_runs" }, 1);
         rep.count("values_not_roundtrip_safe_as_dictionary_entry", std::mem::take(&mut self.excluded_values));
         if let Some((sig, detail)) = out.violation {
